@@ -610,3 +610,165 @@ pub fn run_behaviour(hist: &[J], max_height: Option<usize>) -> Vec<Mismatch> {
     }
     out
 }
+
+// ---------------------------------------------------------------------------------------------
+// Recording (bindings B and C): observations after every action + reshaped engine snapshot.
+
+thread_local! {
+    pub static ORDER: RefCell<Vec<i64>> = RefCell::new(vec![]);
+}
+
+pub fn install_sink() {
+    incremental::verif_set_sink(Some(Box::new(|line: &str| {
+        if line.contains("\"ev\":\"recompute\"") {
+            if let Ok(j) = serde_json::from_str::<J>(line) {
+                ORDER.with(|o| o.borrow_mut().push(j["n"].as_i64().unwrap_or(0)));
+            }
+        }
+    })));
+}
+
+fn val_of_debug(s: &J) -> J {
+    match s.as_str() {
+        None => json!(["none", 0, 0]),
+        Some(txt) => match serde_json::from_str::<J>(txt) {
+            Ok(J::Array(a)) if a.len() == 3 && a[0].is_string() => J::Array(a),
+            _ => json!(["other", 0, 0]),
+        },
+    }
+}
+
+/// Reshape `verif_snapshot()` into per-field arrays indexed by node id (what IncrTrace.SnapState reads).
+pub fn reshape_snapshot(snap: &str) -> J {
+    let s: J = serde_json::from_str(snap).expect("snapshot json");
+    let nodes = s["nodes"].as_array().cloned().unwrap_or_default();
+    let mut m: BTreeMap<&str, Vec<J>> = BTreeMap::new();
+    let mut rel = vec![];
+    for (i, n) in nodes.iter().enumerate() {
+        let released = n["kind"] == "released";
+        if released {
+            rel.push(json!(i + 1));
+        }
+        let kind = n["kind"].as_str().unwrap_or("");
+        let g = |k: &str, d: J| if released || n[k].is_null() { d } else { n[k].clone() };
+        m.entry("valid").or_default().push(g("valid", json!(false)));
+        m.entry("h").or_default().push(g("h", json!(-1)));
+        m.entry("hrch").or_default().push(g("h_rch", json!(-1)));
+        m.entry("hahh").or_default().push(g("h_ahh", json!(-1)));
+        m.entry("par").or_default().push(g("parents", json!([])));
+        m.entry("cip").or_default().push(g("cip", json!([-1])));
+        m.entry("pic").or_default().push(g("pic", json!([])));
+        m.entry("recat").or_default().push(g("rec_at", json!(-1)));
+        m.entry("chgat").or_default().push(g("chg_at", json!(-1)));
+        m.entry("numh").or_default().push(g("num_handlers", json!(0)));
+        m.entry("nobs").or_default().push(g("observers", json!([])));
+        m.entry("rhs").or_default().push(if kind == "lhs" { g("rhs", json!(0)) } else { json!(0) });
+        m.entry("force").or_default().push(g("force_nec", json!(false)));
+        m.entry("setat").or_default().push(if kind == "var" { g("set_at", json!(-1)) } else { json!(-1) });
+        m.entry("val").or_default().push(if released || kind == "mapref" {
+            json!(["none", 0, 0])
+        } else {
+            val_of_debug(&n["val"])
+        });
+    }
+    let mut out = serde_json::Map::new();
+    for (k, v) in m {
+        out.insert(k.to_string(), J::Array(v));
+    }
+    for k in ["valid", "h", "hrch", "hahh", "par", "cip", "pic", "recat", "chgat", "numh", "nobs", "rhs", "force", "setat", "val"] {
+        out.entry(k.to_string()).or_insert(json!([]));
+    }
+    out.insert("rel".into(), J::Array(rel));
+    let mut rch: Vec<(i64, J)> = s["rch"]["queues"]
+        .as_object()
+        .map(|o| o.iter().map(|(h, q)| (h.parse::<i64>().unwrap(), q.clone())).collect())
+        .unwrap_or_default();
+    rch.sort_by_key(|x| x.0);
+    out.insert("rch".into(), J::Array(rch.into_iter().map(|(h, q)| json!([h, q])).collect()));
+    out.insert("rchlen".into(), s["rch"]["len"].clone());
+    out.insert("rchlower".into(), s["rch"]["lower"].clone());
+    out.insert("rchmax".into(), s["rch"]["max_allowed"].clone());
+    out.insert("ahhlen".into(), s["ahh"]["len"].clone());
+    out.insert("ahhmax".into(), s["ahh"]["max_allowed"].clone());
+    out.insert("ahhseen".into(), s["ahh"]["max_seen"].clone());
+    out.insert("pinv".into(), s["prop_invalid"].clone());
+    out.insert(
+        "ostate".into(),
+        J::Array(s["observers"].as_array().map_or(vec![], |v| v.iter().map(|o| o["state"].clone()).collect())),
+    );
+    for (k, src) in [("created", "created"), ("changed", "changed"), ("recomputed", "recomputed"), ("invalidated", "invalidated"), ("becamenec", "became_necessary"), ("becameunnec", "became_unnecessary")] {
+        out.insert(k.into(), s["stats"][src].clone());
+    }
+    out.insert("status".into(), s["status"].clone());
+    out.insert("num".into(), s["stab_num"].clone());
+    J::Object(out)
+}
+
+impl Session {
+    /// Everything a user (and the verif hook) can observe after an action.
+    pub fn observations(&self, panic: &str) -> J {
+        let t = self.t.borrow();
+        let reads: Vec<J> = t
+            .observers
+            .iter()
+            .map(|v| match v.first() {
+                Some(o) if panic.is_empty() => read_json(o.try_get_value()),
+                _ => json!(["gone", ""]),
+            })
+            .collect();
+        let n_nodes = self.state.as_ref().map_or(0, |s| s.verif_num_nodes());
+        let cells: Vec<J> = (1..=n_nodes)
+            .map(|i| match t.vars.get(&i) {
+                Some(v) => v.get().to_json(),
+                None => json!(["gone", 0, 0]),
+            })
+            .collect();
+        let inv: Vec<J> = t.log.inv.iter().map(|(n, a)| json!({"n": n, "args": a})).collect();
+        let dlv: Vec<J> = t
+            .log
+            .dlv
+            .iter()
+            .map(|(o, tk, k, v, rd)| json!({"o": o, "t": tk, "u": k, "v": v, "rd": rd}))
+            .collect();
+        let cut: Vec<J> = t.log.cut.iter().map(|(n, o, w)| json!({"n": n, "old": o, "new": w})).collect();
+        let inreads: Vec<J> = t.log.reads.iter().map(|(o, r)| json!({"o": o, "r": r})).collect();
+        let mut snap = match &self.state {
+            Some(s) => reshape_snapshot(&s.verif_snapshot()),
+            None => json!({}),
+        };
+        let order = ORDER.with(|o| std::mem::take(&mut *o.borrow_mut()));
+        snap["order"] = json!(order);
+        json!({
+            "panic": panic, "reads": reads, "cells": cells, "inv": inv, "dlv": dlv, "cut": cut,
+            "inreads": inreads, "rets": t.log.rets.clone(),
+            "stable": self.state.as_ref().map_or(true, |s| s.is_stable()),
+            "snap": snap,
+        })
+    }
+}
+
+/// Execute a script and record one ndjson line per action (with observations).
+pub fn record_script(script: &[J], max_height: Option<usize>, run: usize, out: &mut Vec<String>) {
+    install_sink();
+    ORDER.with(|o| o.borrow_mut().clear());
+    let mut s = Session::new(max_height);
+    out.push(json!({"a": "reset", "maxh": max_height.unwrap_or(128), "run": run}).to_string());
+    for a in script {
+        if a["a"] == "expect" {
+            continue;
+        }
+        let r = s.apply(a);
+        let msg = match &r {
+            Ok(()) => String::new(),
+            Err(m) => m.clone(),
+        };
+        let mut line = a.clone();
+        line["run"] = json!(run);
+        line["obs"] = s.observations(&msg);
+        out.push(line.to_string());
+        if r.is_err() {
+            break;
+        }
+    }
+    let _ = catch_unwind(AssertUnwindSafe(move || drop(s)));
+}
